@@ -115,10 +115,10 @@ func (r *detRNG) Uint64() uint64 {
 	z = (z ^ (z >> 27)) * 0x94d049bb133111eb
 	return z ^ (z >> 31)
 }
-func (r *detRNG) Uint32() uint32        { return uint32(r.Uint64() >> 32) }
-func (r *detRNG) Float64() float64      { return float64(r.Uint64()>>11) / (1 << 53) }
-func (r *detRNG) Int64N(n int64) int64  { return int64(r.Uint64() % uint64(n)) }
-func (r *detRNG) IntN(n int) int        { return int(r.Uint64() % uint64(n)) }
+func (r *detRNG) Uint32() uint32       { return uint32(r.Uint64() >> 32) }
+func (r *detRNG) Float64() float64     { return float64(r.Uint64()>>11) / (1 << 53) }
+func (r *detRNG) Int64N(n int64) int64 { return int64(r.Uint64() % uint64(n)) }
+func (r *detRNG) IntN(n int) int       { return int(r.Uint64() % uint64(n)) }
 func (r *detRNG) Read(p []byte) (int, error) {
 	for i := range p {
 		p[i] = byte(r.Uint64())
@@ -135,7 +135,9 @@ func (r *detRNG) IsThreadSafe() {}
 // ---------------------------------------------------------------------
 // LRU eviction set whose order can be dumped.
 
-type lruSet struct{ order []cas.CachingDirectoryFetcherKey } // oldest first
+type lruSet struct {
+	order []cas.CachingDirectoryFetcherKey
+} // oldest first
 
 func (s *lruSet) Insert(k cas.CachingDirectoryFetcherKey) { s.order = append(s.order, k) }
 func (s *lruSet) Touch(k cas.CachingDirectoryFetcherKey) {
